@@ -702,20 +702,22 @@ func String(v string) Value {
 	return Value{t: TypeString, value: stringT(v)}
 }
 
-func (s stringT) Get(a Value) (Value, bool) { return Int(int(s[a.Int()])), true }
+func (s stringT) Get(a Value) (Value, bool) { return Byte(s[a.Int()]), true }
 func (s stringT) Set(k, v Value)            { panic("unsupported") }
 func (s stringT) Len() int                  { return len(s) }
 func (s stringT) Range() func() (Value, Value, bool) {
 	var r []rune
-	for _, v := range s {
+	var offs []int
+	for k, v := range s {
 		r = append(r, v)
+		offs = append(offs, k)
 	}
 	n := 0
 	return func() (Value, Value, bool) {
 		if n >= len(r) {
 			return Nil(), Nil(), false
 		}
-		k, v := Int(n), r[n]
+		k, v := Int(offs[n]), r[n]
 		n++
 		return k, Int32(v), true
 	}
